@@ -340,10 +340,15 @@ def structural_source_read_as_bytes(repo):
             for k in n.keywords:
                 if k.arg == 'mode' and isinstance(k.value, ast.Constant):
                     mode = k.value.value
-            opens.append((n.lineno, mode, ast.unparse(n)))
-    text_mode = [o for o in opens if o[1] is None or 'b' not in str(o[1])]
+            keeps_newlines = any(k.arg == 'newline' and isinstance(k.value, ast.Constant) and k.value.value == ''
+                                 for k in n.keywords)
+            opens.append((n.lineno, mode, ast.unparse(n), keeps_newlines))
+    # text mode WITHOUT newline='' translates line endings: the recognised violation; text mode with newline='' keeps
+    # them (decoding is then the question: undecided, not an alarm)
+    text_mode = [o for o in opens if (o[1] is None or 'b' not in str(o[1])) and not o[3]]
+    odd = [o for o in opens if (o[1] is None or 'b' not in str(o[1])) and o[3]]
     return [{'id': 'source-read-as-bytes', 'kind': 'post', 'definite': bool(text_mode),
-             'ok': (not text_mode) if opens else None,
+             'ok': False if text_mode else (None if (odd or not opens) else True),
              'label': 'Script.__init__ reads the file behind `path` in binary mode (no newline translation, no lossy '
                       'decoding before parso): every open() in it has a mode containing "b"',
              'detail': repr(opens)}]
